@@ -79,6 +79,10 @@ class Prop(PropBase):
         if case["dtype"] in ("c8", "c16"):
             x = x + 1j * (g.standard_normal(shape) + 2.0)
         x = x.astype({"f4": "f4", "f8": "f8", "c8": "c8", "c16": "c16"}[case["dtype"]])
+        if case["seed"] % 3 == 1 and x.ndim > 1:
+            x = np.asfortranarray(x)                 # same values, column-major buffer
+        elif case["seed"] % 3 == 2:
+            x = np.repeat(x, 2, axis=0)[::2]          # same values through a strided view
         kw = {"pol_type": "linear"} if case["cls"] == "DualPolarizationSignal" else {}
         nchan = case["sshape"][0] if case["cls"] != "Signal" else 1
         return sigs.make(pb, case["cls"], case["N"], case.get("rate_hz", 1e3) * u.Hz, case["t0"], nchan=nchan, data=x, **kw)
